@@ -146,6 +146,8 @@ func runC39(c *eng.Ctx) {
 		if len(find) != 1 || len(disc) != 1 || len(del) != 1 {
 			c.Undecided("ORDER-delete", eng.FuncName(fn), fn.Pos(), "find / detach / clear not found")
 		} else {
+			hitRev, _ := eng.Search(eng.After(del[0]), eng.Is(disc[0]), eng.SearchOpt{})
+			c.Ob("ORDER-delete", eng.FuncName(fn)+" never-cleared-before-detached", hitRev == nil, del[0].Pos(), "the node is never cleared before it is taken out of its parent's children (clearing drops the parent pointer the detach needs)")
 			// every exit on which the node was found passes the clear
 			found := eng.FailEdges(fn, func(cond ssa.Value) (bool, bool) {
 				b, isB := cond.(*ssa.BinOp)
